@@ -4,11 +4,13 @@ mod bridge;
 mod c03;
 mod c04;
 mod c05;
+mod c07;
 mod c12;
 mod c19;
 mod choice;
 mod engine;
 mod refdiff;
+mod refremap;
 mod refmap;
 mod refmvn;
 mod rng;
@@ -85,6 +87,7 @@ fn dispatch(a: &Args, digest_only: bool) -> i32 {
         "C03" => drive(&c03::C03, a, digest_only),
         "C04" => drive(&c04::C04, a, digest_only),
         "C05" => drive(&c05::C05, a, digest_only),
+        "C07" => drive(&c07::C07, a, digest_only),
         "C12" => drive(&c12::C12, a, digest_only),
         "C19" => drive(&c19::C19, a, digest_only),
         other => {
